@@ -22,12 +22,13 @@ func init() {
 				"stores io(util).Discard into the Writer with a deferred restore before executing and returns the executeList result; includeIfExists never redirects the Writer and returns hiddenTrue after " +
 				"executing / hiddenFalse without executing; hiddenBool.Render writes nothing. (C09.ret) in executeList the return statement stores the evaluated value into the result, every nested execution " +
 				"that returns a value (if/else, range body/else, try, include) is merged into the result only under IsValid() of its own value (a nested list without return never erases an earlier value), " +
-				"and nested executions whose value is discarded are reported.",
+				"and nested executions whose value is discarded are reported. (C09.sites, continued) include's name expression is evaluated before '.' is replaced by the explicit context; a name that is not a string is taken from fmt.Stringer or rejected, and reflect.Value.String() is taken only where the kind is known to be string.",
 			NotDecided:  "what the included template renders; computed names' values; the extends walk of the included template is C08.root; known: a return inside a block/yield body is lost (listed finding).",
 			Assumptions: []string{"AST/Template immutability during execution (C10.ast)"},
 			Trusted:     commonTrusted,
 		},
 		Mutants: []Mutant{
+			{Name: "reflect.Value.String() of a Stringer used as the include name (original defect)", File: "eval.go", Old: "templatePath = name.Interface().(fmt.Stringer).String()", New: "templatePath = name.String()", Rule: "C09.sites"},
 			{Name: "explicit context ignored when it evaluates to an invalid value (agent seed C09/2)", File: "eval.go", Old: "\t\tcontext = st.context\n\t\tdefer func() { st.context = context }()\n\t\tst.context = st.evalPrimaryExpressionGroup(node.Context)\n", New: "\t\tif c := st.evalPrimaryExpressionGroup(node.Context); c.IsValid() {\n\t\t\tcontext = st.context\n\t\t\tdefer func() { st.context = context }()\n\t\t\tst.context = c\n\t\t}\n", Rule: "C09.iso"},
 			{Name: "includeIfExists installs the layout's block table instead of the named template's (agent seed C09/4)", File: "default.go", Old: "\t\t\ta.runtime.newScope()\n\t\t\tdefer a.runtime.releaseScope()\n\n\t\t\ta.runtime.blocks = t.processedBlocks\n\t\t\troot := t.Root\n\t\t\tfor t.extends != nil {\n\t\t\t\tt = t.extends\n\t\t\t\troot = t.Root\n\t\t\t}\n\n\t\t\tif a.NumOfArguments() > 1 {\n\t\t\t\tc := a.runtime.context\n\t\t\t\tdefer func() { a.runtime.context = c }()\n\t\t\t\ta.runtime.context = a.Get(1)\n\t\t\t}\n\n\t\t\ta.runtime.executeList(root)\n\n\t\t\treturn hiddenTrue", New: "\t\t\tfor t.extends != nil {\n\t\t\t\tt = t.extends\n\t\t\t}\n\n\t\t\ta.runtime.newScope()\n\t\t\tdefer a.runtime.releaseScope()\n\t\t\ta.runtime.blocks = t.processedBlocks\n\n\t\t\tif a.NumOfArguments() > 1 {\n\t\t\t\tc := a.runtime.context\n\t\t\t\tdefer func() { a.runtime.context = c }()\n\t\t\t\ta.runtime.context = a.Get(1)\n\t\t\t}\n\n\t\t\ta.runtime.executeList(t.Root)\n\n\t\t\treturn hiddenTrue", Rule: "C09.sites"},
 			{Name: "include resolves against the root", File: "eval.go", Old: "st.set.getSiblingTemplate(templatePath, node.TemplatePath, true)", New: "st.set.getSiblingTemplate(templatePath, \"/\", true)", Rule: "C09.sites"},
@@ -101,6 +102,51 @@ func runC09(c *an.Ctx) {
 			okRef = true
 		}
 		c.Check(okName, "C09.sites", "(*Runtime).executeInclude/name", call.Pos(), "include looks up the string its name expression evaluates to", "the name handed to getSiblingTemplate is not the evaluated include name")
+		// reflect.Value.String() is the content only for a value of kind string (for anything else it is "<T Value>"):
+		// it is taken only where the kind is known to be string
+		if okName {
+			var strCalls []ast.Node
+			var kindTests []*ast.BinaryExpr
+			an.InspectOwn(incl, func(n ast.Node) bool {
+				switch e := n.(type) {
+				case *ast.CallExpr:
+					if an.CalleeName(info, e) == "(reflect.Value).String" && strings.Contains(an.Norm(incl, an.Receiver(e)), "evalPrimaryExpressionGroup($p0.Name)") {
+						strCalls = append(strCalls, e)
+					}
+				case *ast.BinaryExpr:
+					if e.Op == token.EQL {
+						for _, pr := range [][2]ast.Expr{{e.X, e.Y}, {e.Y, e.X}} {
+							kc, isCall := an.Unparen(pr[0]).(*ast.CallExpr)
+							if isCall && an.CalleeName(info, kc) == "(reflect.Value).Kind" && an.Str(an.Unparen(pr[1])) == "reflect.String" {
+								kindTests = append(kindTests, e)
+							}
+						}
+					}
+				}
+				return true
+			})
+			pr := p.ProbeFn(incl, strCalls, an.Hooks{})
+			c.States += pr.X.Visited
+			okKind := true
+			for _, sc := range strCalls {
+				if len(pr.At[sc]) == 0 {
+					okKind = false
+				}
+				for _, st := range pr.At[sc] {
+					known := false
+					for _, kt := range kindTests {
+						if v, k := pr.X.Truth(kt, st); k && v {
+							known = true
+						}
+					}
+					if !known {
+						okKind = false
+					}
+				}
+			}
+			c.Check(okKind, "C09.sites", "(*Runtime).executeInclude/name-kind", call.Pos(), "the name is read with reflect.Value.String only where its kind is known to be string",
+				"executeInclude takes reflect.Value.String() of the evaluated name where its kind is not known to be string: for any other value that is \"<T Value>\", not what the value says (a fmt.Stringer must be asked through its String method)")
+		}
 		// … evaluated in the includer's own context: the name expression is evaluated before '.' is replaced by
 		// the context handed to the included template ({{ include .Partial .Payload }})
 		{
